@@ -68,6 +68,14 @@ F1C == UNION { { [kind |-> "f1", op |-> op, A |-> InA[k], B |-> BigB, ta |-> ta,
 F1D == { [kind |-> "f1", op |-> op, A |-> a, B |-> b, ta |-> t[1], tb |-> t[2], w |-> 4 * NA] :
            op \in Ops, a \in SA.box, b \in SB.box, t \in {<<"Bounds", "Bounds">>} }
 F1DApart == {x \in F1D : Apart(x.A[1][1], x.B[1][1])}
+(* F1E: an operand without any ring - a Polygon value that is nil (all rings of no members), an empty non-nil Polygon (the
+   rings of a member that has none) and a MultiPolygon without members - in either argument position, against a box, a holed
+   box and a pair of boxes, all four operations: the union and the symmetric difference are the other operand. *)
+NoRings == {[v |-> <<>>, t |-> "PolygonFlat"], [v |-> <<>>, t |-> "MultiPolygon"], [v |-> << <<>> >>, t |-> "Polygon"], [v |-> << <<>> >>, t |-> "MultiPolygon"]}
+F1E == UNION { { [kind |-> "f1", op |-> op, A |-> e.v, B |-> InA[k], ta |-> e.t, tb |-> tb, w |-> 20] :
+                    op \in Ops, e \in NoRings, tb \in TypesFor(k) } : k \in Kinds }
+       \cup UNION { { [kind |-> "f1", op |-> op, A |-> InA[k], B |-> e.v, ta |-> ta, tb |-> e.t, w |-> 20] :
+                    op \in Ops, e \in NoRings, ta \in TypesFor(k) } : k \in Kinds }
 (* F2: lattice triangles and quadrilaterals (coordinates x 4), valid and in general position *)
 Grid2 == {<<4 * x, 4 * y>> : x \in 0..F2N, y \in 0..F2N}
 Tri == TLCEval({r \in [1..3 -> Grid2] : HashP(r, 1) % MF2 = 0 /\ SimpleRing(r)})
@@ -79,6 +87,6 @@ F2 == { [kind |-> "f2", op |-> op, A |-> << <<p[1]>> >>, B |-> << <<p[2]>> >>, t
 (* the same operations at other magnitudes (coordinates times 2^sh, exact) *)
 Shifted == {[kind |-> x.kind, op |-> x.op, A |-> x.A, B |-> x.B, ta |-> x.ta, tb |-> x.tb, w |-> x.w, sh |-> s] :
                x \in {y \in F1Thin : (HashS(y.A) + HashS(y.B)) % 4 = 0}, s \in {-20, 24}}
-GenInit == c \in F1Thin \cup F1B \cup F1C \cup F1DApart \cup Shifted \cup (IF F2N = 0 THEN {} ELSE F2) /\ PrintT(ToJson(c))
+GenInit == c \in F1Thin \cup F1B \cup F1C \cup F1DApart \cup F1E \cup Shifted \cup (IF F2N = 0 THEN {} ELSE F2) /\ PrintT(ToJson(c))
 GenSpec == GenInit /\ [][UNCHANGED c]_c
 =============================================================================
